@@ -609,6 +609,7 @@ func (r *runner) run(h Hist) {
 			return true
 		}
 		r.lg.Emit(event(op, o))
+		r.lg.Flush() // if perkeep kills the process in the next call, the trace still ends with this one
 		if o.res == "hang" {
 			r.hangs++
 			abandoned = true
@@ -726,7 +727,7 @@ func main() {
 		}
 		r.run(h)
 		ran++
-		lg.Flush() // a later death of the process must not lose completed histories
+		lg.Flush()
 		if r.hangs >= r.maxHangs {
 			unexamined = len(hists) - i - 1
 			break
